@@ -17,6 +17,9 @@ CONSTANTS
   MaxMgrs = 1
   MaxPosts = 1
   EMIT = TRUE
+  PROBE = FALSE
+  ACKinds = {}
+  RDecs = {TRUE, FALSE}
   RTerms = 0
   RCoef = 0
   RBound = 0
